@@ -129,6 +129,24 @@ def huge_value_routines():
     return [root, troot]
 
 
+def constant_named_inputs(rng):
+    """Inputs NAMED like the spellings evaluate() recognises in assigned VALUES (E, pi, e, Pi): in a routine's own
+    expressions they are ordinary symbols (`oo` is not: the parser reads it as infinity); left unassigned they stay untouched, whatever else is assigned."""
+    out = []
+    for a, b in (("E", "pi"), ("e", "Pi"), ("pi", "E")):
+        kid = {"name": "kid", "type": None, "input_params": ["x", a], "local_variables": [], "linked_params": [], "ports": [],
+               "resources": [{"name": "T", "type": "additive", "value": E.op("add", E.op("mul", E.sym("x"), E.sym(a)), E.num(rng.randint(1, 5)))},
+                             {"name": "bare", "type": "other", "value": E.op("mul", E.num(2), E.sym(a))}],
+               "connections": [], "repetition": None, "children": []}
+        out.append({"name": "constroot", "type": None, "input_params": ["N", a, b], "local_variables": [],
+                    "linked_params": [["N", [["kid", "x"]]], [a, [["kid", a]]]], "ports": [],
+                    "resources": [{"name": "budget", "type": "additive", "value": E.op("mul", E.sym("N"), E.sym(a))},
+                                  {"name": "depth", "type": "other", "value": E.op("add", E.sym("N"), E.sym(b))},
+                                  {"name": "both", "type": "other", "value": E.op("add", E.sym(a), E.sym(b))}],
+                    "connections": [], "repetition": None, "children": [kid]})
+    return out
+
+
 def build_cases(rng, n, max_depth, p_rep=0.3, repeated_only=False):
     routines = []
     while len(routines) < n:
@@ -147,8 +165,10 @@ def build_cases(rng, n, max_depth, p_rep=0.3, repeated_only=False):
             routines.append(r)
     routines += closed_form_named(rng)
     routines += huge_value_routines()
+    routines += constant_named_inputs(rng)
     comp = lib.run_impl("hier-compile", [{"routine": r} for r in routines], per_case_timeout=60)
     cases = []
+    two_const = 0
     for r, c in zip(routines, comp):
         if not c.get("ok"):
             continue
@@ -171,7 +191,11 @@ def build_cases(rng, n, max_depth, p_rep=0.3, repeated_only=False):
             fns, mode = None, "total"
             # (a FLOAT: the values that follow go through the 15-digit folding)
             assign = [["eps", ["float", rng.choice([1e-20, 1.23456789012e-10, 5e-9, 2.5e-13])]], ["k", ["int", rng.randint(2, 9)]]]
-        if mode in ("total", "partial") and assign and not fns and r["name"] not in ("hugeroot", "tinyroot") and rng.random() < 0.08:
+        if r["name"] == "constroot":
+            fns, mode = None, "partial"
+            assign = rng.choice([[["N", ["int", rng.randint(1, 9)]]], [], [["N", ["int", 2]], [params[-1], ["int", 3]]]])
+        if mode in ("total", "partial") and assign and not fns and r["name"] not in ("hugeroot", "tinyroot", "constroot") and '["f", ' not in json.dumps(r) and (two_const < 4 or rng.random() < 0.05):
+            # (not under an uninterpreted function: the model's f(20-digit value) and the code's f(15-digit float) are different calls)
             # one value written over TWO mathematical constants in spellings evaluate() recognises (pi*e, Pi + E): both are constants
             PI_, E_ = ["f", "<const>pi", []], ["f", "<const>E", []]
             text, tree = rng.choice([("pi*e", E.op("mul", PI_, E_)), ("pi + E", E.op("add", PI_, E_)), ("Pi + 2*e", E.op("add", PI_, E.op("mul", E.num(2), E_)))])
@@ -179,6 +203,7 @@ def build_cases(rng, n, max_depth, p_rep=0.3, repeated_only=False):
             if cand:
                 i = rng.choice(cand)
                 assign[i] = [assign[i][0], ["str", text, tree]]
+                two_const += 1
         case = {"routine": r, "assign": assign, "mode": mode}
         if len(assign) >= 2:
             perm = list(assign)
